@@ -80,7 +80,7 @@ def menus(tier):
             "monthly": [None] + subsets(MONTH_DAYS[tk], kd),
             "yearly": [None] + subsets(YEAR_DAYS[tk], kd),
         },
-        "hours_small": [None] + subsets([0, 13, 22, 23] if thorough else [0, 22], 3),
+        "hours_small": [None] + subsets([0, 13, 22] if thorough else [0, 22], 3),
         "hours_full": [None] + (subsets(range(24), 3) if thorough
                                 else subsets(range(24), 1) + subsets([0, 9, 13, 22, 23], 3, 2)),
         "hours_daily_volume": (subsets(range(24), 2) + subsets([0, 9, 13, 22, 23], 3, 3) if thorough
